@@ -610,6 +610,8 @@ def make_symbolic(ex, st, name, ty):
             alts.append((t[4:], []))
         elif t == "series":
             alts.append(("__series__", []))
+        elif t == "candle":
+            alts.append(("__candle__", []))
         else:
             raise Unsupported(f"symbolic input type {t}")
     return alts
@@ -848,3 +850,12 @@ def _same(ev, node):
     """same(a, b): the very same value including its type (True is not the same as 1.0)"""
     a, b = ev.e(node.args[0]), ev.e(node.args[1])
     return wrap_bool(to_V(a, ev.heap) == to_V(b, ev.heap))
+
+
+@specfn("attr")
+def _attr(ev, node):
+    """attr(candle, 'open'): a price field of a candle value"""
+    c, name = ev.e(node.args[0]), ev.e(node.args[1])
+    if isinstance(c, CandleAt):
+        return ev.heap[c.series.oid].attr_value(name, c.j)
+    raise Unsupported("attr of non-candle")
